@@ -47,6 +47,7 @@ def run(rep, tier, seed):
     rng = random.Random(seed)
     rep.broken = []
     rep.compared = 0
+    rep.trail = []      # (table, text) of every case so far: other Licensing objects are the only shared context
     ntab = 120 if tier == 'thorough' else 30
     nvar = 40 if tier == 'thorough' else 6
     fixed = [
@@ -100,11 +101,12 @@ def run(rep, tier, seed):
                     metas.append((T, L, text, exp, k))
     res = run_model(reqs)
     for (T, L, text, exp, k), r in zip(metas, res):
+        rep.trail.append({'table': T, 'text': text, 'expected': None})
         got = parsing.parse_outcome(L, text)
         rep.case((repr(T), text), nontrivial=True, sample={'table': T, 'text': text, 'expected': str(build_expr(exp))})
         rep.count('cases')
         if got != [0, [exp]]:
-            rep.violations.append({'key': 'recognise', 'kind': 'text', 'table': T, 'text': text, 'expected': exp,
+            rep.violations.append({'key': 'recognise', 'kind': 'text', 'table': T, 'text': text, 'expected': exp, '_at': len(rep.trail) - 1,
                                    'what': 'known name not resolved to its symbol: %r' % (got,)})
             continue
         rep.compared += 1
@@ -146,11 +148,12 @@ def run(rep, tier, seed):
     res2 = run_model(reqs2)
     for (T, text, exp), r in zip(metas2, res2):
         L = make_licensing(T)
+        rep.trail.append({'table': T, 'text': text, 'expected': None})
         got = parsing.parse_outcome(L, text)
         rep.case((repr(T), text), nontrivial=True, sample={'table': T, 'text': text, 'expected': str(build_expr(exp))})
         rep.count('overlap_chains')
         if got != [0, [exp]]:
-            rep.violations.append({'key': 'recognise', 'kind': 'text', 'table': T, 'text': text, 'expected': exp,
+            rep.violations.append({'key': 'recognise', 'kind': 'text', 'table': T, 'text': text, 'expected': exp, '_at': len(rep.trail) - 1,
                                    'what': 'overlapping names: the longest (leftmost) match must win and the following '
                                            'known name must be resolved: %r' % (got,)})
             continue
@@ -183,11 +186,12 @@ def run(rep, tier, seed):
     res3 = run_model(reqs3)
     for (T, text, exp), r in zip(metas3, res3):
         L = make_licensing(T)
+        rep.trail.append({'table': T, 'text': text, 'expected': None})
         got = parsing.parse_outcome(L, text)
         rep.case((repr(T), text), nontrivial=True, sample={'table': T, 'text': text, 'expected': str(build_expr(exp))})
         rep.count('diverging_continuations')
         if got != [0, [exp]]:
-            rep.violations.append({'key': 'recognise', 'kind': 'text', 'table': T, 'text': text, 'expected': exp,
+            rep.violations.append({'key': 'recognise', 'kind': 'text', 'table': T, 'text': text, 'expected': exp, '_at': len(rep.trail) - 1,
                                    'what': 'a known name after the shared prefix of two longer names is not resolved: %r' % (got,)})
             continue
         rep.compared += 1
@@ -204,10 +208,11 @@ def run(rep, tier, seed):
     ]
     for T, text, exp in probes:
         L = make_licensing(T)
+        rep.trail.append({'table': T, 'text': text, 'expected': None})
         got = parsing.parse_outcome(L, text)
         rep.case(('probe', text), nontrivial=True)
         if exp is not None and got != [0, [exp]]:
-            rep.violations.append({'key': 'recognise', 'kind': 'text', 'table': T, 'text': text, 'expected': exp,
+            rep.violations.append({'key': 'recognise', 'kind': 'text', 'table': T, 'text': text, 'expected': exp, '_at': len(rep.trail) - 1,
                                    'what': 'probe did not parse as expected: %r' % (got,)})
         if exp is None:
             toks = outcome = None
